@@ -186,8 +186,10 @@ impl SimDisk {
     pub fn with_image_mut<R>(&self, f: impl FnOnce(&mut Image) -> R) -> R {
         f(&mut self.st.borrow_mut().image)
     }
-    pub fn fired_count(&self) -> usize {
-        self.st.borrow().fired.len()
+    /// faults that fired so far (injected failures and calls refused while dead)
+    pub fn fired_total(&self) -> u64 {
+        let st = self.st.borrow();
+        st.fired.len() as u64 + st.stats.dead_calls
     }
 }
 
